@@ -55,6 +55,7 @@ fn main() {
         "C08" => run_property(props::c08_finality::C08, run_args),
         "C11" => run_property(props::c11_erasure::C11, run_args),
         "C15" => run_property(props::c15_merkle::C15, run_args),
+        "C16" => run_property(props::c16_routing::C16, run_args),
         "C17" => run_property(props::c17_sampling::C17, run_args),
         "C18" => run_property(props::c18_standstill::C18, run_args),
         "C19" => run_property(props::c19_wire::C19, run_args),
